@@ -50,6 +50,9 @@ CHECKS = {
     "C19": ("pbt-values", "generated (unit, rep) instances; all 8/16-bit values, special grids and rapidcheck draws (NaN/inf/-0/denormals/raw bits) comparing every ZERO expression with the raw operator against 0 (value and result type); conversion of ZERO to all reps and chrono durations; negative compile probes with twins for every place a quantity point is required",
             "Exploration: exhaustive for small reps, specials + random otherwise, across generated compound units; enumerated negative probes.",
             "raw operators compiled by the same compiler are the oracle; NaN results compared as both-NaN", "4/C19"),
+    "C14": ("pbt-values", "Hypothesis-generated unit pairs biased to exact and dimension-only cancellation x rep pairs: result type pinned by static_assert (raw number iff the model says the units cancel, else Quantity with model-spelled Dimension/Magnitude and raw rep), values bit-equal to raw operators over all 8x8-bit pairs, special grids and rapidcheck draws; int_pow/sqrt/cbrt/inverse checks; negative probes with twins for the integer-division and as_raw_number guards",
+            "Exploration: exact for sampled instances under ASan+UBSan; guards probed on an enumerated list of unit/rep combinations.",
+            "collapse rule asserted for * and / between quantities (documented scope); int_pow result rep not asserted", "4/C14"),
 }
 ENGINES = [
     {"name": "pbt-programs", "path": "auverif/hyp.py", "kind_free_text": "Hypothesis-generated translation units judged by compiler verdict / static_assert / program output against an independent Python model",
